@@ -108,7 +108,15 @@ class USBIsochronousStreamOutEndpoint(Elaboratable):
 
         sufficient_space         = (fifo.space_available >= self._max_packet_size)
 
-        okay_to_receive          = targeting_endpoint & sufficient_space
+        # Decide whether there is room for a whole packet once -- when the packet's first byte reaches
+        # the FIFO -- and stick to that decision for the rest of the packet; the bytes of the packet
+        # itself must not count against it.
+        packet_admitted          = Signal()
+        with m.If(rx.next & rx.valid & rx_first):
+            m.d.usb += packet_admitted.eq(sufficient_space)
+        receiving                = Mux(rx_first, sufficient_space, packet_admitted)
+
+        okay_to_receive          = targeting_endpoint & receiving
         data_is_lost             = okay_to_receive & rx.next & rx.valid & fifo.full
 
         full_packet              = rx_cnt == self._max_packet_size - 1
